@@ -134,12 +134,10 @@ func GetRules() []Rule {
 	return ret
 }
 
-// reportedRuleOf is the copy of a controller's rule that the getters hand out. It carries the ID the rule was
-// last loaded under: a controller kept for a rule that was only renamed still holds the old rule object.
+// reportedRuleOf is the copy of a controller's rule that the getters hand out: the rule as it was last loaded
+// (a controller kept for a rule that came again with the same fields still holds the old rule object).
 func reportedRuleOf(tc TrafficShapingController) Rule {
-	ret := copyOfRule(tc.BoundRule())
-	ret.ID = loadedIDOf(tc)
-	return ret
+	return copyOfRule(ruleInForceOf(tc))
 }
 
 // copyOfRule copies the rule together with its table of specific items: the table of the rule in force
@@ -228,6 +226,11 @@ func onRuleUpdate(rawResRulesMap map[string][]*Rule) (err error) {
 	for res, rules := range validResRulesMap {
 		m[res] = buildResourceTrafficShapingController(res, rules, tcMapClone[res])
 	}
+	for res, tcs := range tcMapClone {
+		if _, inNewList := validResRulesMap[res]; !inNewList {
+			forgetRulesInForce(tcs, nil)
+		}
+	}
 
 	tcMux.Lock()
 	tcMap = m
@@ -302,6 +305,7 @@ func LoadRulesOfResource(res string, rules []*Rule) (bool, error) {
 		delete(currentRules, res)
 		// clear tcMap
 		tcMux.Lock()
+		forgetRulesInForce(tcMap[res], nil)
 		delete(tcMap, res)
 		tcMux.Unlock()
 		logging.Info("[HotSpot] clear resource level hotspot param flow rules", "resource", res)
@@ -381,6 +385,8 @@ func calculateReuseIndexFor(r *Rule, oldResTcs []TrafficShapingController) (equa
 // buildResourceTrafficShapingController builds TrafficShapingController slice from rules. the resource of rules must be equals to res.
 func buildResourceTrafficShapingController(res string, resRules []*Rule, oldResTcs []TrafficShapingController) []TrafficShapingController {
 	newTcsOfRes := make([]TrafficShapingController, 0, len(resRules))
+	allOldResTcs := append([]TrafficShapingController(nil), oldResTcs...)
+	defer func() { forgetRulesInForce(allOldResTcs, newTcsOfRes) }()
 	// Old controllers that belong to a rule which is unchanged in the new list are reserved for it:
 	// they must not donate their statistic to a modified rule that happens to be listed earlier,
 	// otherwise the unchanged rule is rebuilt from scratch and loses its runtime state.
@@ -396,7 +402,7 @@ func buildResourceTrafficShapingController(res string, resRules []*Rule, oldResT
 	// very same fields. Only rules that continue no old rule by ID are matched by their fields alone.
 	idInOld := make(map[string]bool, len(oldResTcs))
 	for _, oldTc := range oldResTcs {
-		idInOld[loadedIDOf(oldTc)] = true
+		idInOld[ruleInForceOf(oldTc).ID] = true
 	}
 	spokenFor := make(map[string]bool, len(resRules))
 	for _, rule := range resRules {
@@ -416,10 +422,10 @@ func buildResourceTrafficShapingController(res string, resRules []*Rule, oldResT
 				if reserved[oldTc] || !oldTc.BoundRule().Equals(rule) {
 					continue
 				}
-				if pass == 0 && loadedIDOf(oldTc) != rule.ID {
+				if pass == 0 && ruleInForceOf(oldTc).ID != rule.ID {
 					continue
 				}
-				if pass == 1 && spokenFor[loadedIDOf(oldTc)] {
+				if pass == 1 && spokenFor[ruleInForceOf(oldTc).ID] {
 					continue
 				}
 				reserved[oldTc] = true
@@ -438,7 +444,7 @@ func buildResourceTrafficShapingController(res string, resRules []*Rule, oldResT
 			continue
 		}
 		for _, oldTc := range oldResTcs {
-			if !reserved[oldTc] && keptFor[oldTc] == nil && loadedIDOf(oldTc) == rule.ID && oldTc.BoundRule().IsStatReusable(rule) {
+			if !reserved[oldTc] && keptFor[oldTc] == nil && ruleInForceOf(oldTc).ID == rule.ID && oldTc.BoundRule().IsStatReusable(rule) {
 				keptFor[oldTc] = rule
 				break
 			}
@@ -477,10 +483,8 @@ func buildResourceTrafficShapingController(res string, resRules []*Rule, oldResT
 		if equalIdx >= 0 {
 			equalOldTC := oldResTcs[equalIdx]
 			newTcsOfRes = append(newTcsOfRes, equalOldTC)
-			// The rule object in the controller stays; the ID it goes by from now on is the new rule's.
-			if c, ok := equalOldTC.(interface{ setLoadedRuleID(string) }); ok {
-				c.setLoadedRuleID(rule.ID)
-			}
+			// The rule object in the controller stays; the rule it stands for from now on is the new one.
+			setRuleInForce(equalOldTC, rule)
 			// remove old tc from old resTcs
 			oldResTcs = append(oldResTcs[:equalIdx], oldResTcs[equalIdx+1:]...)
 			continue
